@@ -617,7 +617,7 @@ func smtName(t *Term) string {
 	case OpVar:
 		return "|" + t.Name + "|"
 	}
-	return fmt.Sprintf("t%d", t.ID)
+	return fmt.Sprintf("$t%d", t.ID)
 }
 
 // defineCone appends the declarations and definitions t depends on that are
@@ -688,7 +688,7 @@ func (t *Term) str(d int) string {
 		return t.Name
 	}
 	if d == 0 {
-		return fmt.Sprintf("t%d", t.ID)
+		return fmt.Sprintf("$t%d", t.ID)
 	}
 	s := "(" + opSMT[t.Op]
 	switch t.Op {
